@@ -45,6 +45,49 @@ macro_rules! case {
 pub mod expr;
 pub mod tag;
 
+/// Verification hooks: a thread-local sink recording every `ParseState` state change.
+#[cfg(glass_easel_verif)]
+pub mod verif_trace {
+    use std::cell::RefCell;
+
+    #[derive(Debug, Clone, Copy, PartialEq, Eq)]
+    pub enum Op {
+        Adv,
+        Try,
+        Ok,
+        Rb,
+        Warn,
+    }
+
+    /// `Adv`/`Rb`: `a = [idx, line, col, 0, 0]`; `Try`/`Ok`: zeros;
+    /// `Warn`: `a = [kind, start line, start col, end line, end col]`.
+    #[derive(Debug, Clone, Copy)]
+    pub struct Ev {
+        pub op: Op,
+        pub a: [u32; 5],
+    }
+
+    thread_local! {
+        static SINK: RefCell<Option<Vec<Ev>>> = RefCell::new(None);
+    }
+
+    pub fn start() {
+        SINK.with(|s| *s.borrow_mut() = Some(vec![]));
+    }
+
+    pub fn take() -> Vec<Ev> {
+        SINK.with(|s| s.borrow_mut().take().unwrap_or_default())
+    }
+
+    pub(crate) fn emit(op: Op, a: [u32; 5]) {
+        SINK.with(|s| {
+            if let Some(v) = s.borrow_mut().as_mut() {
+                v.push(Ev { op, a });
+            }
+        });
+    }
+}
+
 const fn is_template_whitespace(c: char) -> bool {
     match c {
         ' ' => true,
@@ -101,6 +144,17 @@ impl<'s> ParseState<'s> {
 
     /// Add a new warning.
     pub fn add_warning(&mut self, kind: ParseErrorKind, location: Range<Position>) {
+        #[cfg(glass_easel_verif)]
+        verif_trace::emit(
+            verif_trace::Op::Warn,
+            [
+                kind.clone() as u32,
+                location.start.line,
+                location.start.utf16_col,
+                location.end.line,
+                location.end.utf16_col,
+            ],
+        );
         self.warnings.push(ParseError {
             path: self.path.to_string(),
             kind,
@@ -126,6 +180,14 @@ impl<'s> ParseState<'s> {
 
     fn cur_str(&self) -> &'s str {
         &self.whole_str[self.cur_index..]
+    }
+
+    #[cfg(glass_easel_verif)]
+    fn verif_pos(&self, op: verif_trace::Op) {
+        verif_trace::emit(
+            op,
+            [self.cur_index as u32, self.line, self.utf16_col, 0, 0],
+        );
     }
 
     /// Whether the input is ended.
@@ -158,11 +220,19 @@ impl<'s> ParseState<'s> {
         let prev = self.cur_index;
         let prev_line = self.line;
         let prev_utf16_col = self.utf16_col;
+        #[cfg(glass_easel_verif)]
+        verif_trace::emit(verif_trace::Op::Try, [0; 5]);
         let ret = f(self);
         if ret.is_none() {
             self.cur_index = prev;
             self.line = prev_line;
             self.utf16_col = prev_utf16_col;
+            #[cfg(glass_easel_verif)]
+            self.verif_pos(verif_trace::Op::Rb);
+        }
+        #[cfg(glass_easel_verif)]
+        if ret.is_some() {
+            verif_trace::emit(verif_trace::Op::Ok, [0; 5]);
         }
         ret
     }
@@ -182,6 +252,8 @@ impl<'s> ParseState<'s> {
         } else {
             self.utf16_col += skipped.encode_utf16().count() as u32;
         }
+        #[cfg(glass_easel_verif)]
+        self.verif_pos(verif_trace::Op::Adv);
     }
 
     pub(crate) fn skip_until_before(&mut self, until: &str) -> Option<&'s str> {
@@ -317,6 +389,8 @@ impl<'s> ParseState<'s> {
         } else {
             self.utf16_col += ret.encode_utf16(&mut [0; 2]).len() as u32;
         }
+        #[cfg(glass_easel_verif)]
+        self.verif_pos(verif_trace::Op::Adv);
         Some(ret)
     }
 
@@ -341,6 +415,10 @@ impl<'s> ParseState<'s> {
                 self.utf16_col += c.encode_utf16(&mut [0; 2]).len() as u32;
             }
         };
+        #[cfg(glass_easel_verif)]
+        if start_pos.is_some() {
+            self.verif_pos(verif_trace::Op::Adv);
+        }
         start_pos.map(|x| x..self.position())
     }
 
